@@ -782,7 +782,8 @@ impl Sim {
                 let modacks = self.resolve(client, &sub, modack);
                 let mut secs = vec![*modack_secs; modacks.len()];
                 secs.extend(extra_secs.iter().cloned());
-                let hostile = !raw_sub.is_empty() || *raw_max_msgs != 0 || *raw_max_bytes != 0 || !extra_secs.is_empty();
+                let bad_id = |a: &String| a.is_empty() || !a.bytes().all(|b| b.is_ascii_digit()) || a.len() > 19;
+                let hostile = !raw_sub.is_empty() || *raw_max_msgs != 0 || *raw_max_bytes != 0 || !extra_secs.is_empty() || acks.iter().any(bad_id) || modacks.iter().any(bad_id) || secs.iter().any(|x| *x < 0);
                 self.stream_send_raw(client, *slot, acks, modacks, secs, hostile, Some((raw_sub.clone(), *raw_max_msgs, *raw_max_bytes)));
             }
             Op::StreamCloseReq { slot } => self.stream_close_req(client, *slot),
@@ -848,6 +849,22 @@ impl Sim {
         let mut reg: Vec<String> = registry.entries().iter().map(|(n, _)| n.to_string()).collect();
         reg.sort();
         self.log(0, Ev::Registry { subs: reg });
+        if self.plan.has_tag("audit_lists") {
+            // gRPC-level audit (client 0): Get every name we ever used, list every topic's subscriptions.
+            let topics: Vec<String> = self.known_topics.borrow().iter().cloned().collect();
+            for t in topics {
+                let mut c = self.publisher();
+                let request = pb::GetTopicRequest { topic: t.clone() };
+                self.unary(0, Req::GetTopic { topic: t.clone() }, 0, None, HANG_LIMIT, async move { c.get_topic(request).await }, |x: pb::Topic| Resp::Topic(x.name)).await;
+                self.walk(0, &ListKind::TopicSubs, &t, 1000).await;
+            }
+            let subs: Vec<String> = self.known_subs.borrow().iter().cloned().collect();
+            for sname in subs {
+                let mut c = self.subscriber();
+                let request = pb::GetSubscriptionRequest { subscription: sname.clone() };
+                self.unary(0, Req::GetSub { sub: sname.clone() }, 0, None, HANG_LIMIT, async move { c.get_subscription(request).await }, |x: pb::Subscription| Resp::Sub(sub_view(&x))).await;
+            }
+        }
     }
 
     // ------------------------------------------------------------------------------------------
@@ -997,6 +1014,10 @@ impl Sim {
             let _quiescent = self.barrier(phase_no).await;
             if phase.audit {
                 self.snapshot().await;
+                if self.plan.has_tag("double_audit") {
+                    self.barrier(phase_no).await;
+                    self.snapshot().await;
+                }
             }
             if phase.advance_us > 0 {
                 self.log(0, Ev::Advance { us: phase.advance_us });
